@@ -13,7 +13,7 @@ from apt_mirror.repository import FlatRepository, Repository
 
 EXPECTED = ["C17_union", "C17_perm", "C17_line_ext", "C17_findKey_scope", "C17_getBool_table",
             "C17_legacy_alias_counterexample", "C17_vars_resolved", "C17_vars_keys", "C17_vars_literal_kept", "C17_vars_idempotent",
-            "C17_vars_direct", "C17_vars_direct_order", "C17_vars_forward", "C17_vars_forward_late_bound", "C17_vars_order_quirk"]
+            "C17_vars_direct", "C17_vars_direct_order", "C17_vars_forward", "C17_vars_forward_late_bound", "C17_vars_order_quirk", "C17_getSize_spec", "C17_getBool_spec"]
 LEVEL = "proof"
 RULE = ("configuration = 1-6 deb / deb-<arch> / deb-src lines with optional [arch=..,src by-hash=..] blocks over a universe of "
         "4 URLs (two of which are string prefixes of another), 2 codenames or 2 flat directories, 3 components, 3 "
